@@ -3,6 +3,7 @@ package sim
 import (
 	"bytes"
 	"strconv"
+	"strings"
 	"unicode/utf8"
 )
 
@@ -133,6 +134,9 @@ func (g *docGen) strN(n int) {
 			g.b.WriteByte("\"\\/bfnrt"[g.c.Intn("esc", 8)])
 		case 2: // \uXXXX non-surrogate
 			cp := g.c.Intn("ucp", 0x10000)
+			if g.c.Intn("uctrl", 4) == 0 {
+				cp = g.c.Intn("uctrlcp", 0x20) // control characters can only be written this way
+			}
 			if cp >= 0xD800 && cp < 0xE000 {
 				cp -= 0x800
 			}
@@ -273,6 +277,10 @@ func (g *docGen) key() {
 	switch g.c.Pick("keyk", 6, 2, 1, 2) {
 	case 0:
 		n := 1 + g.c.Intn("klen", 12)
+		if g.c.Intn("klong", 30) == 0 {
+			// long names, around powers of two (bit masks, length bytes, SIMD block sizes)
+			n = []int{31, 32, 33, 63, 64, 65, 127, 128, 129, 255, 256, 257, 64 + g.c.Intn("klongn", 300)}[g.c.Intn("klongk", 13)]
+		}
 		g.b.WriteByte('"')
 		for i := 0; i < n; i++ {
 			g.b.WriteByte(byte('a' + g.c.Intn("kch", 6)))
@@ -594,7 +602,11 @@ func GenDoc(c *Chooser, spec DocSpec) Doc {
 				g.b.WriteByte(',')
 				g.wsp()
 			}
-			g.b.WriteString(`"k` + strconv.Itoa(i) + `":`)
+			pad := ""
+			if g.c.Intn("kpad", 25) == 0 {
+				pad = strings.Repeat("x", []int{29, 30, 31, 61, 62, 63, 125, 126, 127, 253, 254, 255, 40 + g.c.Intn("kpadn", 400)}[g.c.Intn("kpadk", 13)])
+			}
+			g.b.WriteString(`"k` + strconv.Itoa(i) + pad + `":`)
 			g.value(1)
 		}
 		g.b.WriteByte('}')
